@@ -11,7 +11,8 @@ use dust_dds::verif::{DataReaderEntity, publication_builtin_topic_data, subscrip
 use serde_json::{Value, json};
 
 fn dur(v: i64) -> DurationKind {
-    if v >= 3 { DurationKind::Infinite } else { DurationKind::Finite(Duration::new(v as i32, 0)) }
+    // 3 = the largest finite duration (its seconds are those of the infinite sentinel), 4 = infinite
+    if v >= 4 { DurationKind::Infinite } else if v == 3 { DurationKind::Finite(Duration::new(i32::MAX, 0)) } else { DurationKind::Finite(Duration::new(v as i32, 0)) }
 }
 fn repr(v: &Value) -> Vec<u16> {
     v.as_array().map(|a| a.iter().map(|x| x.as_i64().unwrap() as u16).collect()).unwrap_or_default()
